@@ -7,10 +7,11 @@ use crate::prng::Rng;
 use serde_derive::{Deserialize, Serialize};
 
 pub const TYPE_NAMES: [&str; 32] = [
-	"a.N0", "a.N1", "a.N2", "a.N3", "a.N4", "a.N5", "a.N6", "a.N7", "a.b.N8", "a.b.N9", "a.b.N10",
-	"a.b.N11", "a.b.N12", "a.b.N13", "c.N14", "c.N15", "c.N16", "c.N17", "c.N18", "c.N19", "c.N20",
-	"c.d.e.N21", "c.d.e.N22", "c.d.e.N23", "z.N24", "z.N25", "z.N26", "z.N27", "z.N28", "z.N29",
-	"z.N30", "z.N31",
+	// several short names occur in more than one namespace on purpose (fullnames stay unique): whatever is keyed
+	// by a type's name must use the fullname
+	"a.N0", "b.N0", "a.N1", "a.b.N1", "c.N2", "a.N2", "a.N3", "z.N3", "a.b.N4", "a.b.N5", "c.N4", "a.N6", "c.d.e.N6",
+	"a.N7", "c.N8", "c.N9", "c.N10", "c.N11", "c.N12", "c.N13", "c.N14", "c.d.e.N15", "c.d.e.N16", "c.d.e.N17", "z.N18",
+	"z.N19", "z.N20", "z.N21", "z.N22", "z.N29", "z.N30", "z.N31",
 ];
 pub const FIELD_NAMES: [&str; 24] = [
 	"f0", "f1", "f2", "f3", "f4", "f5", "f6", "f7", "f8", "f9", "f10", "f11", "f12", "f13", "f14",
